@@ -330,7 +330,7 @@ def work(spec):
             c['nested_ops'] += nn
             if nn:
                 res['nontrivial'] += 1
-            res['outcomes'].add('ok' if v is None else v[0])
+            res['outcomes'].add('ops ' + ','.join(sorted({o[0] + ':' + str(o[2]) for o in hist})) + ': ' + ('ok' if v is None else v[0]))
             if v is not None:
                 core.add_violation(res, {'kind': 'hist', 'hist': [list(o) for o in hist]}, f'history {list(hist)!r}: {v[1]}', sig=v[0])
         core.untrack()
